@@ -914,8 +914,16 @@ func (x *Exec) eval(fr *frame, ins ssa.Value) Value {
 	case *ssa.Slice:
 		return x.slice(fr, ins)
 	case *ssa.MakeSlice:
-		n := x.concretize(x.get(fr, ins.Len).(*Term), 0, 1<<16, true)
-		c := x.concretize(x.get(fr, ins.Cap).(*Term), 0, 1<<16, true)
+		lenT, capT := x.get(fr, ins.Len).(*Term), x.get(fr, ins.Cap).(*Term)
+		// Go panics at run time for a negative (or absurdly large) length or capacity
+		if x.branch(Or(bvcmp("bvslt", lenT, BV(0, lenT.sort.Width)), bvcmp("bvslt", capT, lenT))) {
+			panic(panicPath{"makeslice: len out of range"})
+		}
+		if x.branch(bvcmp("bvslt", BV(1<<20, capT.sort.Width), capT)) {
+			panic(abortPath{"allocation of more than 2^20 elements (outside the engine's bound)", false})
+		}
+		n := x.concretize(lenT, 0, 1<<20, true)
+		c := x.concretize(capT, 0, 1<<20, true)
 		et := ins.Type().Underlying().(*types.Slice).Elem()
 		a := &ArrayObj{e: make([]Obj, c)}
 		if _, isBasic := et.Underlying().(*types.Basic); isBasic {
